@@ -11,9 +11,10 @@ mkdir -p "$OUT"; cp "$SRC/$H.diff" "$OUT/patch.diff"; cp "$SRC/$H.json" "$OUT/ag
 git -C "$WT" apply --whitespace=nowarn "$OUT/patch.diff" || { echo "[$ID] PATCH DOES NOT APPLY"; git -C /repo worktree remove --force "$WT"; exit 3; }
 TESTS=$(bash /verif/tools/baseline_off.sh "$WT" | tail -1)
 echo "[$ID] $TESTS"
+CQ=/var/tmp/coq_$ID; rm -rf "$CQ" "$CQ.ev"; cp -a /verif/coq "$CQ"     # private Coq tree: generated tables follow the tree under test
 RES=""
 for P in $PROPS; do
-  L=$(VERIF_EVIDENCE_DIR=/var/tmp/verif_side_evidence VERIF_REPO="$WT" timeout 2400 python3 /verif/tools/check.py "$P" --tier quick 2>&1 | grep -E "^VIOLATION" | head -3 | tr '\n' ' ')
+  L=$(VERIF_COQ_DIR="$CQ" VERIF_EVIDENCE_DIR="$CQ.ev" VERIF_REPO="$WT" timeout 2400 python3 /verif/tools/check.py "$P" --tier quick 2>&1 | grep -E "^VIOLATION" | head -3 | tr '\n' ' ')
   if [ -n "$L" ]; then echo "[$ID] $P: FALSE-ALARM? $L"; RES="$RES $P:alarm"; mkdir -p "$OUT/replays"; cp /verif/replays/${P}_quick_1.json "$OUT/replays/" 2>/dev/null; else RES="$RES $P:quiet"; fi
 done
 echo "[$ID] result:$RES"
@@ -25,3 +26,4 @@ json.dump({"id": hid, "summary": a.get("summary"), "why_neutral": a.get("why_neu
 PY
 rm -f "$OUT/agent_meta.json"
 git -C /repo worktree remove --force "$WT"
+rm -rf "$CQ" "$CQ.ev"
